@@ -86,7 +86,8 @@ fn print_one<S>(
         }
     }
     if !options_to_print.is_empty() || context.builtin_is_significant {
-        let separator = if function.name.starts_with('-') {
+        // The typeset built-in parses operands starting with `+` as options, too.
+        let separator = if function.name.starts_with(['-', '+']) {
             "-- "
         } else {
             ""
